@@ -443,6 +443,10 @@ func c06GenAddr(t *rapid.T, hdr string, seq *int) c06Addr {
 	a := c06Addr{Name: rapid.SampledFrom(c06Names).Draw(t, "name"), Domain: rapid.SampledFrom([]string{"example.com", "verif.example", "example.org"}).Draw(t, "domain")}
 	// unique tokens: a Bcc mailbox never looks like anything else in the message
 	a.Local = fmt.Sprintf("%sq%dzq", hdr, *seq)
+	if rapid.IntRange(0, 4).Draw(t, "atext") == 0 {
+		// every atext special is legal in a local part (and must reach the envelope unchanged)
+		a.Local += rapid.SampledFrom([]string{"%s", "%d", "%%x", "+tag", "!#$&'*", "/=?^_`{|}~", "%example.org"}).Draw(t, "special")
+	}
 	if hdr != "bcc" && rapid.IntRange(0, 6).Draw(t, "dup") == 0 {
 		a.Local = hdr + "dupzq" // duplicates are legal: one RCPT per occurrence
 	}
